@@ -307,6 +307,28 @@ fn main() {
         out.push_str(&format!("        vec!{:?},\n", bs));
     }
     out.push_str("    ]\n}\n");
+    // key codes that src/lib.rs (the decoders; the layouts live elsewhere) mentions in code: whatever treats a particular
+    // key specially has to name it
+    let mut named: Vec<String> = Vec::new();
+    if let Ok(src) = fs::read_to_string(format!("{}/src/lib.rs", repo)) {
+        let src: String = src.lines().map(|l| match l.find("//") { Some(i) => &l[..i], None => l }).collect::<Vec<_>>().join("\n");
+        // the unit tests at the end of the file name keys for their own purposes
+        let src = match src.find("#[cfg(test)]") {
+            Some(i) => src[..i].to_string(),
+            None => src,
+        };
+        for (i, _) in src.match_indices("KeyCode::") {
+            let name: String = src[i + 9..].chars().take_while(|c| c.is_ascii_alphanumeric()).collect();
+            if !name.is_empty() && name.chars().next().unwrap().is_ascii_uppercase() && !named.contains(&name) && named.len() < 64 {
+                named.push(name);
+            }
+        }
+    }
+    out.push_str("pub fn decoder_named_keys() -> Vec<pc_keyboard::KeyCode> {\n    vec![");
+    for k in &named {
+        out.push_str(&format!("pc_keyboard::KeyCode::{}, ", k));
+    }
+    out.push_str("]\n}\n");
     out.push_str("pub fn unmonitored_layout_impls() -> &'static [&'static str] {\n    &[");
     for t in &unknown {
         out.push_str(&format!("\"{}\", ", t));
